@@ -71,7 +71,12 @@ func vrun(t *testing.T, hist []vop, maxBytes, syncEvery int64) string {
 		}
 	}
 	// at rest: depth, then drain and compare, then nothing more
-	time.Sleep(time.Millisecond)
+	// "at rest": the queue's own goroutine acknowledges a delivery (and decrements depth) after the
+	// consumer has received it, so wait until the depth stops lagging (bounded wait)
+	deadline := time.Now().Add(2 * time.Second)
+	for q.(*DiskQueue).Depth() != int64(len(model)) && time.Now().Before(deadline) {
+		time.Sleep(200 * time.Microsecond)
+	}
 	if d := q.(*DiskQueue).Depth(); d != int64(len(model)) {
 		return fmt.Sprintf("at rest: Depth()=%d, %d messages enqueued and not delivered", d, len(model))
 	}
